@@ -528,8 +528,14 @@ func (self *Assembler) call_more_space(pc obj.Addr) {
 	self.xload(_REG_ms...) // LOAD $REG_all
 }
 
-func (self *Assembler) call_encoder(pc obj.Addr) {
+func (self *Assembler) call_encoder(pc obj.Addr, pv bool) {
 	self.xsave(_REG_enc...) // SAVE $REG_all
+	/* the flag word travels in SI, which is also RL: load it only after RL is saved,
+	 * otherwise an error of the callee restores the flags as the buffer length */
+	self.Emit("MOVQ", _ARG_fv, _SI) // MOVQ  fv, SI
+	if pv {
+		self.Emit("BTSQ", jit.Imm(alg.BitPointerValue), _SI) // BTSQ $BitPointerValue, SI
+	}
 	self.call(pc)           // CALL $pc
 	self.xload(_REG_enc...) // LOAD $REG_all
 }
@@ -973,9 +979,8 @@ func (self *Assembler) _asm_OP_eface(_ *ir.Instr) {
 	self.prep_buffer_AX()                     // MOVE  {buf}, AX
 	self.Emit("MOVQ", jit.Ptr(_SP_p, 0), _BX) // MOVQ  (SP.p), BX
 	self.Emit("LEAQ", jit.Ptr(_SP_p, 8), _CX) // LEAQ  8(SP.p), CX
-	self.Emit("MOVQ", _ST, _DI)               // MOVQ  ST, DI
-	self.Emit("MOVQ", _ARG_fv, _SI)           // MOVQ  fv, AX
-	self.call_encoder(_F_encodeTypedPointer)  // CALL  encodeTypedPointer
+	self.Emit("MOVQ", _ST, _DI)                     // MOVQ  ST, DI
+	self.call_encoder(_F_encodeTypedPointer, false) // CALL  encodeTypedPointer
 	self.Emit("TESTQ", _ET, _ET)              // TESTQ ET, ET
 	self.Sjmp("JNZ", _LB_error)               // JNZ   _error
 	self.load_buffer_AX()
@@ -986,9 +991,8 @@ func (self *Assembler) _asm_OP_iface(_ *ir.Instr) {
 	self.Emit("MOVQ", jit.Ptr(_SP_p, 0), _CX) // MOVQ  (SP.p), CX
 	self.Emit("MOVQ", jit.Ptr(_CX, 8), _BX)   // MOVQ  8(CX), BX
 	self.Emit("LEAQ", jit.Ptr(_SP_p, 8), _CX) // LEAQ  8(SP.p), CX
-	self.Emit("MOVQ", _ST, _DI)               // MOVQ  ST, DI
-	self.Emit("MOVQ", _ARG_fv, _SI)           // MOVQ  fv, AX
-	self.call_encoder(_F_encodeTypedPointer)  // CALL  encodeTypedPointer
+	self.Emit("MOVQ", _ST, _DI)                     // MOVQ  ST, DI
+	self.call_encoder(_F_encodeTypedPointer, false) // CALL  encodeTypedPointer
 	self.Emit("TESTQ", _ET, _ET)              // TESTQ ET, ET
 	self.Sjmp("JNZ", _LB_error)               // JNZ   _error
 	self.load_buffer_AX()
@@ -1048,13 +1052,8 @@ func (self *Assembler) _asm_OP_recurse(p *ir.Instr) {
 	}
 
 	/* call the encoder */
-	self.Emit("MOVQ", _ST, _DI)     // MOVQ  ST, DI
-	self.Emit("MOVQ", _ARG_fv, _SI) // MOVQ  $fv, SI
-	if pv {
-		self.Emit("BTSQ", jit.Imm(alg.BitPointerValue), _SI) // BTSQ $1, SI
-	}
-
-	self.call_encoder(_F_encodeTypedPointer) // CALL  encodeTypedPointer
+	self.Emit("MOVQ", _ST, _DI)                  // MOVQ  ST, DI
+	self.call_encoder(_F_encodeTypedPointer, pv) // CALL  encodeTypedPointer
 	self.Emit("TESTQ", _ET, _ET)             // TESTQ ET, ET
 	self.Sjmp("JNZ", _LB_error)              // JNZ   _error
 	self.load_buffer_AX()
